@@ -37,6 +37,13 @@ def c08(res, r, finished):
                 v = r.views[i]
                 if not (v[0] == 'disconnected' and not v[1]):
                     viol(res, r, 'a failed connect() did not leave the client disconnected with no session id', 'failed-connect-clean', view=v, step=i)
+    # one connect() call establishes at most one session: the connect handler fires at most once per call, exactly once if it returns normally
+    for i, o in rets:
+        if o[1] == 'connect' and o[2] in ('ok', 'ConnectionError'):
+            st = call_step(r, o[3])
+            n = sum(1 for j, e in ev if st <= j <= i and e == 'connect')
+            if n > 1 or (o[2] == 'ok' and n != 1):
+                viol(res, r, 'one connect() call fired the connect handler %d times' % n, 'connect-once-per-call', step=i, result=o[2], n=n)
     # events: connect ... disconnect alternate; exactly one disconnect per established connection
     open_ = False
     for i, e in ev:
